@@ -96,6 +96,7 @@ def shapes(n):
     }
 
 
+@common.job
 def _job(job):
     mode, kinds, n = job
     stats, viols = {}, []
